@@ -188,6 +188,32 @@ def stepM (id : String) (inp obs : List String) : String :=
     verdict id mi s "-" ("R " ++ encJson m)
   | _, _ => s!"{id} bad-case"
 
+/-- direct `Formatter.Format` call: `<id> F <path> <stText…> fmt err => R <status> <ctype> json | P` -/
+def stepF (id : String) (inp obs : List String) : String :=
+  let pIn : P (Bytes × List (Nat × Bytes) × Fmt × Err) := do
+    let path ← str
+    let tab ← list (do let n ← nat; let s ← str; pure (n, s))
+    let f ← pFmt
+    let e ← pErr inp.length
+    pure (path, tab, f, e)
+  let pOut : P (Option (Nat × Bytes × Json)) := do
+    let k ← tok
+    if k == "R" then do
+      let st ← nat; let ct ← str; let b ← pJson obs.length
+      pure (some (st, ct, b))
+    else if k == "P" then pure none else failure
+  match runP pIn inp, runP pOut obs with
+  | some (path, tab, f, e), some o =>
+    let env : Env := { path := path, stText := stTextOf tab }
+    let m := format env f e
+    let mb := m.body.canon
+    let mi := match o with | some (st, ct, b) => st == m.status && ct == m.contentType && b == mb | none => false
+    let s := match o with
+      | some (st, ct, b) => st == docStatus f (.fail e) && headerMediaType ct == mediaTypeOf f.kind && shapeOK f.kind st b
+      | none => false
+    verdict id mi s "-" (s!"R {m.status} {encStr m.contentType} " ++ encJson mb)
+  | _, _ => s!"{id} bad-case"
+
 def step (line : String) : String :=
   match splitCase line with
   | none => "? bad-line"
@@ -195,6 +221,7 @@ def step (line : String) : String :=
     match inp with
     | "A" :: rest => stepA id rest obs
     | "M" :: rest => stepM id rest obs
+    | "F" :: rest => stepF id rest obs
     | _ => s!"{id} bad-case"
 
 end Rivaas.DriverC06
